@@ -236,6 +236,12 @@ def extract_method(fn, m: Module, pkg: Package) -> Optional[MethodInfo]:
     model = None
     projection = None
     is_sub = False
+    var_local = "variables"
+    for n in ast.walk(fn):
+        if isinstance(n, ast.Call) and ast.unparse(n.func) in ("self.execute", "self.execute_ws"):
+            for kw in n.keywords:
+                if kw.arg == "variables" and isinstance(kw.value, ast.Name):
+                    var_local = kw.value.id
     for n in ast.walk(fn):
         if isinstance(n, ast.Call):
             fname = ast.unparse(n.func)
@@ -261,6 +267,8 @@ def extract_method(fn, m: Module, pkg: Package) -> Optional[MethodInfo]:
             if fname in ("self.execute", "self.execute_ws"):
                 is_sub = fname == "self.execute_ws"
                 for kw in n.keywords:
+                    if kw.arg == "variables" and isinstance(kw.value, ast.Name):
+                        var_local = kw.value.id  # the local holding the variables dict (renamed when an argument clashes)
                     if kw.arg == "operation_name":
                         try:
                             opname = ast.literal_eval(kw.value)
@@ -270,7 +278,7 @@ def extract_method(fn, m: Module, pkg: Package) -> Optional[MethodInfo]:
                 model = ast.unparse(n.func.value)
         if isinstance(n, (ast.AnnAssign, ast.Assign)):
             tgt = n.target if isinstance(n, ast.AnnAssign) else n.targets[0]
-            if isinstance(tgt, ast.Name) and tgt.id == "variables" and n.value is not None:
+            if isinstance(tgt, ast.Name) and tgt.id == var_local and n.value is not None:
                 var_src = ast.unparse(n.value)
                 if isinstance(n.value, ast.Dict):
                     for k, v in zip(n.value.keys, n.value.values):
